@@ -57,9 +57,8 @@ def flatS (pre : Path) : Node → Path → Option Shape
   | .edge p c _, k => flatS (pre ++ p) c k
   | .bin l r _, k =>
     if k = pre then some (.inner (topKey (pre ++ [false]) l) (topKey (pre ++ [true]) r))
-    else match flatS (pre ++ [false]) l k with
-      | some x => some x
-      | none => flatS (pre ++ [true]) r k
+    else if (pre ++ [false]).isPrefixOf k then flatS (pre ++ [false]) l k
+    else flatS (pre ++ [true]) r k
   | _, _ => none
 
 def Matches (o : Option LNode) : Option Shape → Prop
@@ -85,8 +84,7 @@ theorem flatS_prefix {pre : Path} {t : Node} {k : Path} {x : Shape} (h : flatS p
     split at h
     · rename_i e; subst e; exact List.prefix_refl _
     · split at h
-      · rename_i y hy
-        exact (List.prefix_append _ _).trans (ihl (pre := pre ++ [false]) hy)
+      · exact (List.prefix_append _ _).trans (ihl (pre := pre ++ [false]) h)
       · exact (List.prefix_append _ _).trans (ihr (pre := pre ++ [true]) h)
 
 /-- agreement of the store with the subtree `t` on every key below `pre` -/
@@ -119,13 +117,8 @@ theorem AgreeAt.binL {s : Store} {pre : Path} {l r : Node} {fl : Flags} (h : Agr
   have hne : k ≠ pre := by
     intro e; subst e
     have := hk.length_le; simp at this; omega
-  simp only [flatS, hne, if_false] at this
-  cases hl : flatS (pre ++ [false]) l k with
-  | some x => simpa [hl] using this
-  | none =>
-    have hr : flatS (pre ++ [true]) r k = none :=
-      flatS_none_of_not_prefix (by simpa using not_prefix_sibling pre false hk)
-    simpa [hl, hr] using this
+  have hp : (pre ++ [false]).isPrefixOf k = true := List.isPrefixOf_iff_prefix.mpr hk
+  simpa [flatS, hne, hp] using this
 
 theorem AgreeAt.binR {s : Store} {pre : Path} {l r : Node} {fl : Flags} (h : AgreeAt s pre (.bin l r fl)) :
     AgreeAt s (pre ++ [true]) r := by
@@ -134,9 +127,11 @@ theorem AgreeAt.binR {s : Store} {pre : Path} {l r : Node} {fl : Flags} (h : Agr
   have hne : k ≠ pre := by
     intro e; subst e
     have := hk.length_le; simp at this; omega
-  have hl : flatS (pre ++ [false]) l k = none :=
-    flatS_none_of_not_prefix (by simpa using not_prefix_sibling pre true hk)
-  simpa [flatS, hne, hl] using this
+  have hp : (pre ++ [false]).isPrefixOf k = false := by
+    cases h5 : (pre ++ [false]).isPrefixOf k with
+    | false => rfl
+    | true => exact absurd (List.isPrefixOf_iff_prefix.mp h5) (by simpa using not_prefix_sibling pre true hk)
+  simpa [flatS, hne, hp] using this
 
 theorem AgreeAt.binTop {s : Store} {pre : Path} {l r : Node} {fl : Flags} (h : AgreeAt s pre (.bin l r fl)) :
     ∃ c, sget s pre = some ⟨c, some (topKey (pre ++ [false]) l), some (topKey (pre ++ [true]) r)⟩ := by
@@ -293,6 +288,463 @@ def secondLast {α : Type} (l : List α) : Option α := l.dropLast.getLast?
 def relink (old new : Path) : Shape → Shape
   | .inner l r => if l = old then .inner new r else .inner l new
   | sh => sh
+
+theorem topKey_prefix (pre : Path) (S : Node) : pre <+: topKey pre S := by
+  cases S <;> simp [topKey]
+
+theorem pathKeys_head {key : Path} {S : Node} {n : Nat} (hw : WF S n) (pre : Path) :
+    ∃ tl, pathKeys key pre S = topKey pre S :: tl := by
+  induction hw generalizing pre with
+  | value _ => exact ⟨[], rfl⟩
+  | @edge p c n fl hp hc hne ih =>
+    obtain ⟨tl, h⟩ := ih (pre ++ p)
+    refine ⟨tl, ?_⟩
+    cases c with
+    | edge _ _ _ => simp [NotEdge] at hne
+    | _ => simpa [pathKeys, topKey] using h
+  | bin _ _ _ _ =>
+    simp only [pathKeys, topKey]
+    split
+    · exact ⟨[], rfl⟩
+    · exact ⟨_, rfl⟩
+
+theorem pathKeys_prefix {key : Path} {S : Node} {n : Nat} (hw : WF S n) (pre : Path) :
+    ∀ K ∈ pathKeys key pre S, pre <+: K := by
+  induction hw generalizing pre with
+  | value _ => intro K hK; simp [pathKeys] at hK; subst hK; exact List.prefix_refl _
+  | edge _ _ _ ih =>
+    intro K hK
+    exact (List.prefix_append _ _).trans (ih _ K (by simpa [pathKeys] using hK))
+  | bin _ _ ihl ihr =>
+    intro K hK
+    simp only [pathKeys] at hK
+    split at hK
+    · simp at hK; subst hK; exact List.prefix_refl _
+    · cases hK with
+      | head => exact List.prefix_refl _
+      | tail _ hK =>
+        split at hK
+        · exact (List.prefix_append _ _).trans (ihr _ K hK)
+        · exact (List.prefix_append _ _).trans (ihl _ K hK)
+
+/-- how the expected store content changes when a new key is inserted -/
+def insUpd (f : Path → Option Shape) (key : Path) (v : HTerm) (parent : Option Path) (last C : Path)
+    (k : Path) : Option Shape :=
+  if k = key then some (.leaf v)
+  else if parent = some k then (f k).map (relink last C)
+  else if k = C then some (if key.getD C.length false then .inner last key else .inner key last)
+  else f k
+
+theorem secondLast_cons {α : Type} (a : α) (l : List α) :
+    secondLast (a :: l) = if l.length = 1 then some a else secondLast l := by
+  cases l with
+  | nil => simp [secondLast]
+  | cons b t =>
+    cases t with
+    | nil => simp [secondLast]
+    | cons c u => simp [secondLast, List.dropLast]
+
+theorem append_cons_assoc (pre : Path) (b : Bool) (ks : Path) : pre ++ b :: ks = (pre ++ [b]) ++ ks := by simp
+
+/-! ### binary nodes, uniformly in the branch bit -/
+
+def child (b : Bool) (l r : Node) : Node := if b then r else l
+def setChild (b : Bool) (l r c : Node) (fl : Flags) : Node := if b then .bin l c fl else .bin c r fl
+
+theorem prefix_dec (a k : Path) : a.isPrefixOf k = true ↔ a <+: k := List.isPrefixOf_iff_prefix
+
+theorem isPrefixOf_false_of_not {a k : Path} (h : ¬ a <+: k) : a.isPrefixOf k = false := by
+  cases h5 : a.isPrefixOf k with
+  | false => rfl
+  | true => exact absurd (List.isPrefixOf_iff_prefix.mp h5) h
+
+theorem flatS_bin_child (pre : Path) (l r : Node) (fl : Flags) (b : Bool) (k : Path) (hk : k ≠ pre) :
+    flatS pre (.bin l r fl) k =
+      if (pre ++ [b]).isPrefixOf k then flatS (pre ++ [b]) (child b l r) k
+      else flatS (pre ++ [!b]) (child (!b) l r) k := by
+  simp only [flatS, hk, if_false]
+  cases b
+  · simp [child]
+  · simp only [child, if_true, Bool.not_true, Bool.false_eq_true, if_false]
+    by_cases h1 : (pre ++ [true]).isPrefixOf k = true
+    · have : (pre ++ [false]).isPrefixOf k = false :=
+        isPrefixOf_false_of_not (by simpa using not_prefix_sibling pre true ((prefix_dec _ _).mp h1))
+      simp [h1, this]
+    · have h1' : (pre ++ [true]).isPrefixOf k = false := Bool.eq_false_iff.mpr h1
+      simp only [h1', Bool.false_eq_true, if_false]
+      by_cases h0 : (pre ++ [false]).isPrefixOf k = true
+      · simp [h0]
+      · have h0' : (pre ++ [false]).isPrefixOf k = false := Bool.eq_false_iff.mpr h0
+        simp only [h0', Bool.false_eq_true, if_false]
+        rw [flatS_none_of_not_prefix (t := r) (fun h => h1 ((prefix_dec _ _).mpr h)),
+            flatS_none_of_not_prefix (t := l) (fun h => h0 ((prefix_dec _ _).mpr h))]
+
+theorem flatS_setChild (pre : Path) (l r c : Node) (fl : Flags) (b : Bool) (k : Path) :
+    flatS pre (setChild b l r c fl) k =
+      if k = pre then some (.inner (topKey (pre ++ [false]) (if b then l else c)) (topKey (pre ++ [true]) (if b then c else r)))
+      else if (pre ++ [b]).isPrefixOf k then flatS (pre ++ [b]) c k
+      else flatS (pre ++ [!b]) (child (!b) l r) k := by
+  by_cases hk : k = pre
+  · cases b <;> simp [setChild, flatS, hk]
+  · simp only [hk, if_false]
+    cases b
+    · have := flatS_bin_child pre c r fl false k hk
+      simpa [setChild, child] using this
+    · have := flatS_bin_child pre l c fl true k hk
+      simpa [setChild, child] using this
+
+theorem ins_bin (l r : Node) (fl : Flags) (b : Bool) (ks : Path) (v : HTerm) :
+    ∃ fl', (ins (.bin l r fl) (b :: ks) v).1 = setChild b l r (ins (child b l r) ks v).1 fl' := by
+  cases b
+  · simp only [ins, Bool.false_eq_true, if_false, child, setChild]
+    by_cases hd : (ins l ks v).2 = true
+    · exact ⟨Flags.new, by simp [hd]⟩
+    · have hd' : (ins l ks v).2 = false := by simpa using hd
+      exact ⟨fl, by simp [hd', ins_clean hd']⟩
+  · simp only [ins, if_true, child, setChild]
+    by_cases hd : (ins r ks v).2 = true
+    · exact ⟨Flags.new, by simp [hd]⟩
+    · have hd' : (ins r ks v).2 = false := by simpa using hd
+      exact ⟨fl, by simp [hd', ins_clean hd']⟩
+
+theorem pathKeys_bin (pre : Path) (l r : Node) (fl : Flags) (b : Bool) (ks : Path) :
+    pathKeys (pre ++ b :: ks) pre (.bin l r fl) =
+      pre :: pathKeys (pre ++ b :: ks) (pre ++ [b]) (child b l r) := by
+  have hstop : stops (pre ++ b :: ks) pre = false := stops_prefix pre (b :: ks) (by simp)
+  have hbit : (pre ++ b :: ks).getD pre.length false = b := by simp [getD_append_len]
+  cases b <;> simp [pathKeys, hstop, hbit, child]
+
+theorem mem_of_secondLast {α : Type} {l : List α} {a : α} (h : secondLast l = some a) : a ∈ l :=
+  List.dropLast_subset _ (List.mem_of_getLast? h)
+
+
+theorem topKey_child_ne (pre : Path) (l r : Node) :
+    topKey (pre ++ [false]) l ≠ topKey (pre ++ [true]) r := by
+  intro e
+  have p1 := topKey_prefix (pre ++ [false]) l
+  have p2 := topKey_prefix (pre ++ [true]) r
+  rw [e] at p1
+  exact not_prefix_sibling pre false p1 (by simpa using p2)
+
+theorem ins_edge_eq (p : Path) (c : Node) (fl : Flags) (key : Path) (v : HTerm) (hk : key ≠ []) :
+    ins (.edge p c fl) key v =
+      (if (cpre p key).length = p.length then
+        (if !(ins c (key.drop (cpre p key).length) v).2 then (Node.edge p c fl, false)
+         else (Node.edge p (ins c (key.drop (cpre p key).length) v).1 Flags.new, true))
+      else
+        (if (cpre p key).isEmpty then
+          (Node.bin
+            (if key.getD (cpre p key).length false = false then insNil (key.drop ((cpre p key).length + 1)) (.value v)
+             else if p.getD (cpre p key).length false = false then insNil (p.drop ((cpre p key).length + 1)) c else .nil)
+            (if key.getD (cpre p key).length false = true then insNil (key.drop ((cpre p key).length + 1)) (.value v)
+             else if p.getD (cpre p key).length false = true then insNil (p.drop ((cpre p key).length + 1)) c else .nil)
+            Flags.new, true)
+         else
+          (Node.edge (cpre p key) (Node.bin
+            (if key.getD (cpre p key).length false = false then insNil (key.drop ((cpre p key).length + 1)) (.value v)
+             else if p.getD (cpre p key).length false = false then insNil (p.drop ((cpre p key).length + 1)) c else .nil)
+            (if key.getD (cpre p key).length false = true then insNil (key.drop ((cpre p key).length + 1)) (.value v)
+             else if p.getD (cpre p key).length false = true then insNil (p.drop ((cpre p key).length + 1)) c else .nil)
+            Flags.new) Flags.new, true))) := by
+  cases key with
+  | nil => exact absurd rfl hk
+  | cons b ks => simp only [ins]
+
+theorem topKey_insNil (q x : Path) {c : Node} (hne : NotEdge c) : topKey q (insNil x c) = q ++ x := by
+  unfold insNil
+  cases x with
+  | nil => cases c <;> simp_all [topKey, NotEdge]
+  | cons a t => simp [topKey]
+
+theorem flatS_insNil (q x : Path) (c : Node) (k : Path) : flatS q (insNil x c) k = flatS (q ++ x) c k := by
+  unfold insNil
+  cases x with
+  | nil => simp
+  | cons a t => simp [flatS]
+
+theorem pathKeys_edge_stop (pre p rest : Path) {c : Node} {n : Nat} (hc : WF c n) (hne : NotEdge c)
+    (hlen : p.length ≤ rest.length) (hnp : p.isPrefixOf rest = false) :
+    pathKeys (pre ++ rest) (pre ++ p) c = [pre ++ p] := by
+  cases hc with
+  | value _ => rfl
+  | edge _ _ _ => simp [NotEdge] at hne
+  | bin _ _ => simp [pathKeys, stops_mismatch pre p rest hlen hnp]
+
+/-- The expected store content after inserting a new key, in terms of the walk of `nodesFromRoot`:
+a new leaf, a new inner node at the common prefix `C` of the key and the last node visited, and the
+link of that node's parent. -/
+theorem flatS_ins {v : HTerm} {S : Node} {n : Nat} (hw : WF S n) :
+    ∀ (pre rest : Path), rest.length = n → flatS pre S (pre ++ rest) = none →
+      ∃ last, (pathKeys (pre ++ rest) pre S).getLast? = some last ∧
+        pre <+: cpre (pre ++ rest) last ∧
+        (∀ k, flatS pre (ins S rest v).1 k =
+          insUpd (flatS pre S) (pre ++ rest) v (secondLast (pathKeys (pre ++ rest) pre S)) last
+            (cpre (pre ++ rest) last) k) ∧
+        topKey pre (ins S rest v).1 =
+          (if (pathKeys (pre ++ rest) pre S).length = 1 then cpre (pre ++ rest) last else topKey pre S) := by
+  induction hw with
+  | @value w hwv =>
+    intro pre rest hr habs
+    have : rest = [] := List.length_eq_zero_iff.mp hr
+    subst this
+    simp [flatS] at habs
+  | @bin l r n fl hl hr ihl ihr =>
+    intro pre rest hrl habs
+    cases rest with
+    | nil => simp at hrl
+    | cons b ks =>
+      have hks : ks.length = n := by simpa using hrl
+      have hkey : pre ++ b :: ks = (pre ++ [b]) ++ ks := append_cons_assoc pre b ks
+      have hne_pre : pre ++ b :: ks ≠ pre := by
+        intro e; have := congrArg List.length e; simp at this
+      have hkeypre : (pre ++ [b]).isPrefixOf (pre ++ b :: ks) = true :=
+        (prefix_dec _ _).mpr (by rw [hkey]; exact List.prefix_append _ _)
+      have hwc : WF (child b l r) n := by cases b <;> simp [child, hl, hr]
+      have hchild : flatS (pre ++ [b]) (child b l r) ((pre ++ [b]) ++ ks) = none := by
+        rw [← hkey]
+        have := flatS_bin_child pre l r fl b (pre ++ b :: ks) hne_pre
+        rw [habs, hkeypre] at this
+        simpa using this.symm
+      have ih : ∃ last, (pathKeys ((pre ++ [b]) ++ ks) (pre ++ [b]) (child b l r)).getLast? = some last ∧
+          (pre ++ [b]) <+: cpre ((pre ++ [b]) ++ ks) last ∧
+          (∀ k, flatS (pre ++ [b]) (ins (child b l r) ks v).1 k =
+            insUpd (flatS (pre ++ [b]) (child b l r)) ((pre ++ [b]) ++ ks) v
+              (secondLast (pathKeys ((pre ++ [b]) ++ ks) (pre ++ [b]) (child b l r))) last
+              (cpre ((pre ++ [b]) ++ ks) last) k) ∧
+          topKey (pre ++ [b]) (ins (child b l r) ks v).1 =
+            (if (pathKeys ((pre ++ [b]) ++ ks) (pre ++ [b]) (child b l r)).length = 1
+              then cpre ((pre ++ [b]) ++ ks) last else topKey (pre ++ [b]) (child b l r)) := by
+        cases b
+        · exact ihl (pre ++ [false]) ks hks hchild
+        · exact ihr (pre ++ [true]) ks hks hchild
+      obtain ⟨last, h1, h2, h3, h4⟩ := ih
+      rw [← hkey] at h1 h2 h3 h4
+      obtain ⟨tl, htl⟩ := pathKeys_head (key := pre ++ b :: ks) hwc (pre ++ [b])
+      obtain ⟨fl', hins⟩ := ins_bin l r fl b ks v
+      have hpath := pathKeys_bin pre l r fl b ks
+      -- abbreviations
+      generalize hP : pathKeys (pre ++ b :: ks) (pre ++ [b]) (child b l r) = pc at h1 h3 h4 htl hpath
+      generalize hC : cpre (pre ++ b :: ks) last = C at h2 h3 h4
+      generalize hc' : (ins (child b l r) ks v).1 = c' at h3 h4 hins
+      refine ⟨last, ?_, ?_, ?_, ?_⟩
+      · rw [hpath, htl]; rw [htl] at h1; simpa [List.getLast?_cons_cons] using h1
+      · rw [hC]; exact (List.prefix_append _ _).trans h2
+      · intro k
+        rw [hC, hpath, secondLast_cons, hins, flatS_setChild]
+        by_cases hkpre : k = pre
+        · subst hkpre
+          have hk1 : ¬ k = k ++ b :: ks := fun e => hne_pre e.symm
+          simp only [if_true, insUpd, hk1, if_false]
+          by_cases hlen1 : pc.length = 1
+          · simp only [hlen1, if_true]
+            have htop : topKey (k ++ [b]) c' = C := by simpa [hlen1] using h4
+            have hlast : topKey (k ++ [b]) (child b l r) = last := by
+              rw [htl] at hlen1 h1
+              have : tl = [] := by simpa using hlen1
+              subst this; simpa using h1
+            cases b
+            · simp only [child, Bool.false_eq_true, if_false] at hlast htop ⊢
+              simp [flatS, relink, hlast, htop]
+            · simp only [child, if_true] at hlast htop ⊢
+              have hdiff : topKey (k ++ [false]) l ≠ last := by
+                rw [← hlast]; exact topKey_child_ne k l r
+              simp [flatS, relink, hlast, htop, hdiff]
+          · simp only [hlen1, if_false]
+            have htop : topKey (k ++ [b]) c' = topKey (k ++ [b]) (child b l r) := by simpa [hlen1] using h4
+            have hsl : ¬ secondLast pc = some k := by
+              intro e
+              have hm : k ∈ pathKeys (k ++ b :: ks) (k ++ [b]) (child b l r) := by rw [hP]; exact mem_of_secondLast e
+              have := (pathKeys_prefix hwc (k ++ [b]) k hm).length_le
+              simp at this; omega
+            have hkc : ¬ k = C := by
+              intro e
+              have := h2.length_le
+              rw [← e] at this; simp at this; omega
+            cases b
+            · simp only [child, Bool.false_eq_true, if_false] at htop ⊢
+              simp [hsl, hkc, flatS, htop]
+            · simp only [child, if_true] at htop ⊢
+              simp [hsl, hkc, flatS, htop]
+        · simp only [hkpre, if_false]
+          by_cases hkin : (pre ++ [b]).isPrefixOf k = true
+          · simp only [hkin, if_true]
+            rw [h3 k]
+            have hold := flatS_bin_child pre l r fl b k hkpre
+            simp only [hkin, if_true] at hold
+            have hpk : ¬ (some pre = some k) := by simpa using fun e : pre = k => hkpre e.symm
+            unfold insUpd
+            rw [hold]
+            by_cases hlen1 : pc.length = 1
+            · have hsl : secondLast pc = none := by
+                rw [htl] at hlen1 ⊢
+                have : tl = [] := by simpa using hlen1
+                subst this; simp [secondLast]
+              simp [hlen1, hsl, hpk]
+            · simp [hlen1]
+          · have hkin' : (pre ++ [b]).isPrefixOf k = false := Bool.eq_false_iff.mpr hkin
+            have hnp : ¬ (pre ++ [b]) <+: k := fun h => hkin ((prefix_dec _ _).mpr h)
+            simp only [hkin', Bool.false_eq_true, if_false]
+            have hold := flatS_bin_child pre l r fl b k hkpre
+            simp only [hkin', Bool.false_eq_true, if_false] at hold
+            have c1 : ¬ k = pre ++ b :: ks := by
+              intro e; apply hnp; rw [e, hkey]; exact List.prefix_append _ _
+            have c2 : ¬ (if pc.length = 1 then some pre else secondLast pc) = some k := by
+              split
+              · simpa using fun e : pre = k => hkpre e.symm
+              · intro e
+                have hm : k ∈ pathKeys (pre ++ b :: ks) (pre ++ [b]) (child b l r) := by rw [hP]; exact mem_of_secondLast e
+                exact hnp (pathKeys_prefix hwc (pre ++ [b]) k hm)
+            have c3 : ¬ k = C := by
+              intro e; apply hnp; rw [e]; exact h2
+            simp only [insUpd, c1, c2, c3, if_false, hold]
+      · rw [hC, hpath, hins]
+        have : (pre :: pc).length ≠ 1 := by rw [htl]; simp
+        simp only [this, if_false]
+        cases b <;> simp [setChild, topKey]
+  | @edge p c n fl hp hc hne ih =>
+    intro pre rest hrl habs
+    have habs' : flatS (pre ++ p) c (pre ++ rest) = none := by simpa [flatS] using habs
+    by_cases hpre : p.isPrefixOf rest = true
+    · -- the edge path is a prefix of the key: descend
+      obtain ⟨kt, rfl⟩ := List.isPrefixOf_iff_prefix.mp hpre
+      have hkt : kt.length = n := by simp at hrl; omega
+      have hassoc : pre ++ (p ++ kt) = (pre ++ p) ++ kt := by simp
+      rw [hassoc] at habs'
+      obtain ⟨last, h1, h2, h3, h4⟩ := ih (pre ++ p) kt hkt habs'
+      rw [← hassoc] at h1 h2 h3 h4
+      have hfull : (cpre p (p ++ kt)).length = p.length :=
+        (cpre_full_iff p _).mpr hpre
+      -- the walk inside `c` has at least two nodes
+      have hlen2 : (pathKeys (pre ++ (p ++ kt)) (pre ++ p) c).length ≠ 1 := by
+        cases hc with
+        | value hv =>
+          have : kt = [] := List.length_eq_zero_iff.mp hkt
+          subst this
+          simp [flatS] at habs'
+        | edge _ _ _ => simp [NotEdge] at hne
+        | @bin l r n' bfl hl hr =>
+          have hktne : kt ≠ [] := by intro e; subst e; simp at hkt
+          rw [hassoc]
+          cases kt with
+          | nil => exact absurd rfl hktne
+          | cons b ks =>
+            rw [pathKeys_bin]
+            have hwc : WF (child b l r) n' := by cases b <;> simp [child, hl, hr]
+            obtain ⟨tl, htl⟩ := pathKeys_head (key := (pre ++ p) ++ b :: ks) hwc ((pre ++ p) ++ [b])
+            rw [htl]; simp
+      have hins : ∃ fl', (ins (.edge p c fl) (p ++ kt) v).1 = .edge p (ins c kt v).1 fl' := by
+        cases hk : p ++ kt with
+        | nil => simp at hk; exact absurd hk.1 hp
+        | cons kb kks =>
+          rw [← hk]
+          have : (ins (.edge p c fl) (p ++ kt) v) =
+              (if !(ins c kt v).2 then (Node.edge p c fl, false) else (Node.edge p (ins c kt v).1 Flags.new, true)) := by
+            rw [hk]; simp only [ins]; rw [← hk]; simp [hfull]
+          rw [this]
+          by_cases hd : (ins c kt v).2 = true
+          · exact ⟨Flags.new, by simp [hd]⟩
+          · have hd' : (ins c kt v).2 = false := by simpa using hd
+            exact ⟨fl, by simp [hd', ins_clean hd']⟩
+      obtain ⟨fl', hins⟩ := hins
+      refine ⟨last, by simpa [pathKeys] using h1, (List.prefix_append _ _).trans h2, ?_, ?_⟩
+      · intro k
+        rw [hins]
+        simp only [flatS, pathKeys]
+        exact h3 k
+      · rw [hins]
+        simp only [pathKeys, hlen2, if_false, topKey]
+    · -- branch out below the common prefix
+      have hnp : p.isPrefixOf rest = false := Bool.eq_false_iff.mpr hpre
+      have hfull : (cpre p rest).length ≠ p.length := fun e => hpre ((cpre_full_iff p rest).mp e)
+      obtain ⟨m, pb, prest, krest, hp', hk2, hm⟩ := cpre_split p rest (by omega) hfull
+      subst hp' hk2
+      have hpath : pathKeys (pre ++ (m ++ (!pb) :: krest)) (pre ++ (m ++ pb :: prest)) c = [pre ++ (m ++ pb :: prest)] :=
+        pathKeys_edge_stop pre _ _ hc hne (by omega) hnp
+      have hC : cpre (pre ++ (m ++ (!pb) :: krest)) (pre ++ (m ++ pb :: prest)) = pre ++ m := by
+        rw [cpre_append_left, cpre_comm, hm]
+      have hkr : krest.length = prest.length + n := by simp at hrl; omega
+      -- the result of the split
+      have hres : ∃ fl1 fl2, (ins (.edge (m ++ pb :: prest) c fl) (m ++ (!pb) :: krest) v).1 =
+          (if m.isEmpty then setChild pb (insNil krest (.value v)) (insNil krest (.value v)) (insNil prest c) fl1
+           else .edge m (setChild pb (insNil krest (.value v)) (insNil krest (.value v)) (insNil prest c) fl1) fl2) := by
+        have e1 : (m ++ pb :: prest).getD m.length false = pb := by simp
+        have e2 : (m ++ (!pb) :: krest).getD m.length false = !pb := by simp
+        have e3 : List.drop (m.length + 1) (m ++ pb :: prest) = prest := by
+          rw [show m ++ pb :: prest = (m ++ [pb]) ++ prest by simp]
+          rw [show m.length + 1 = (m ++ [pb]).length by simp]
+          exact List.drop_left
+        have e4 : List.drop (m.length + 1) (m ++ (!pb) :: krest) = krest := by
+          rw [show m ++ (!pb) :: krest = (m ++ [!pb]) ++ krest by simp]
+          rw [show m.length + 1 = (m ++ [!pb]).length by simp]
+          exact List.drop_left
+        refine ⟨Flags.new, Flags.new, ?_⟩
+        rw [ins_edge_eq _ _ _ _ _ (by simp), hm]
+        have hf : ¬ m.length = (m ++ pb :: prest).length := by simp
+        simp only [hf, if_false, e1, e2, e3, e4]
+        cases pb <;> cases hme : m.isEmpty <;> simp [setChild]
+      obtain ⟨fl1, fl2, hres⟩ := hres
+      refine ⟨pre ++ (m ++ pb :: prest), by simp [pathKeys, hpath], ?_, ?_, ?_⟩
+      · rw [hC]; exact List.prefix_append _ _
+      · intro k
+        have hflat : flatS pre (ins (.edge (m ++ pb :: prest) c fl) (m ++ (!pb) :: krest) v).1 k =
+            flatS (pre ++ m) (setChild pb (insNil krest (.value v)) (insNil krest (.value v)) (insNil prest c) fl1) k := by
+          rw [hres]
+          cases hme : m.isEmpty with
+          | true =>
+            have : m = [] := by cases m <;> simp_all
+            subst this; simp
+          | false => simp [flatS]
+        rw [hflat, hC, flatS_setChild]
+        simp only [pathKeys, hpath]
+        have hsl : secondLast [pre ++ (m ++ pb :: prest)] = none := by simp [secondLast]
+        rw [hsl]
+        have hq1 : (pre ++ m) ++ [pb] ++ prest = pre ++ (m ++ pb :: prest) := by simp
+        have hq2 : (pre ++ m) ++ [!pb] ++ krest = pre ++ (m ++ (!pb) :: krest) := by simp
+        have hbit : (pre ++ (m ++ (!pb) :: krest)).getD (pre ++ m).length false = !pb := by
+          rw [show pre ++ (m ++ (!pb) :: krest) = (pre ++ m) ++ (!pb) :: krest by simp, getD_append_len]; rfl
+        unfold insUpd
+        by_cases hkc : k = pre ++ m
+        · subst hkc
+          have hne1 : ¬ pre ++ m = pre ++ (m ++ (!pb) :: krest) := by
+            intro e; have := congrArg List.length e; simp at this
+          have hnone : ¬ (none : Option Path) = some (pre ++ m) := by simp
+          simp only [if_true, hne1, if_false, hbit, hnone]
+          have t1 := topKey_insNil ((pre ++ m) ++ [pb]) prest hne
+          have t2 := topKey_insNil ((pre ++ m) ++ [!pb]) krest (c := .value v) (by simp [NotEdge])
+          rw [hq1] at t1; rw [hq2] at t2
+          cases pb <;> simp_all
+        · simp only [hkc, if_false]
+          by_cases hold : ((pre ++ m) ++ [pb]).isPrefixOf k = true
+          · simp only [hold, if_true, flatS_insNil, hq1]
+            have hne1 : ¬ k = pre ++ (m ++ (!pb) :: krest) := by
+              intro e
+              have h1 := (prefix_dec _ _).mp hold
+              have h2 : (pre ++ m) ++ [!pb] <+: k := by rw [e, ← hq2]; simp
+              exact not_prefix_sibling (pre ++ m) pb h1 h2
+            simp [hne1, flatS]
+          · have hold' : ((pre ++ m) ++ [pb]).isPrefixOf k = false := Bool.eq_false_iff.mpr hold
+            simp only [hold', Bool.false_eq_true, if_false, child]
+            have hsel : (if (!pb) = true then insNil krest (Node.value v) else insNil krest (Node.value v)) =
+                insNil krest (.value v) := by cases pb <;> rfl
+            rw [hsel, flatS_insNil, hq2]
+            have hf0 : flatS pre (.edge (m ++ pb :: prest) c fl) k = none := by
+              simp only [flatS]
+              apply flatS_none_of_not_prefix
+              intro h
+              apply hold
+              apply (prefix_dec _ _).mpr
+              rw [← hq1] at h
+              exact (List.prefix_append _ _).trans h
+            have hf1 : flatS (pre ++ (m ++ pb :: prest)) c k = none := by simpa [flatS] using hf0
+            simp [flatS, hf0, hf1]
+      · rw [hres, hC]
+        simp only [pathKeys, hpath, List.length_singleton, if_true]
+        cases hme : m.isEmpty with
+        | true =>
+          have : m = [] := by cases m <;> simp_all
+          subst this
+          cases pb <;> simp [setChild, topKey]
+        | false => simp [topKey]
 
 end Legacy
 end Juno.C01
